@@ -899,6 +899,10 @@ def check(run, replay=None):
     if exe is None:
         run.broken.append('harness h_msgs does not build against the current /repo/src: %s' % (err or '')[-1500:])
         return
+    import defaults_probe
+    defaults_probe.check(run, replay)         # default arguments of the setters / parsers / tN2kMsg readers as values, against the pinned table
+    if replay and any(l.startswith('DEFAULT ') for l in vlib.read_replay(replay)):
+        return
     fl = META['functions']
     run.cov['translator'] = {'functions': len(fl), 'translated': sum(1 for f in fl if f['translated']),
                              'untranslated': {f['name']: f['why'] for f in fl if not f['translated']},
